@@ -70,12 +70,15 @@ def sh(cmd, cwd, timeout=900):
         return 124, "timeout"
 
 
-def gen(wt, outdir, per_file):
+def gen(wt, outdir, per_file, seed=20261003, skip_index=None, files=None):
     os.makedirs(outdir, exist_ok=True)
-    rnd = random.Random(20261003)
+    rnd = random.Random(seed)
     index = []
-    n = 0
-    for f in FILES:
+    tried = set()
+    if skip_index and os.path.exists(skip_index):
+        tried = {(m["file"], m["line"]) for m in json.load(open(skip_index))}
+    n = 100 if tried else 0
+    for f in (files or FILES):
         path = os.path.join(wt, f)
         text = open(path).read()
         ss = sites(text)
@@ -83,7 +86,8 @@ def gen(wt, outdir, per_file):
         rnd.shuffle(ss)
         picked, seen_lines = [], set()
         for s in ss:
-            if s[0] in seen_lines:
+            ltxt = text.split("\n")[s[0]].strip()
+            if s[0] in seen_lines or (f, s[0] + 1) in tried or ltxt.startswith("+ ") or "as FromStr" in ltxt or "as TryFrom" in ltxt or "verif_hooks" in ltxt:
                 continue
             seen_lines.add(s[0])
             picked.append(s)
@@ -139,5 +143,9 @@ def run(outdir, only=None):
 if __name__ == "__main__":
     if sys.argv[1] == "gen":
         gen(sys.argv[2], sys.argv[3], int(sys.argv[4]) if len(sys.argv) > 4 else 10)
+    elif sys.argv[1] == "gen2":
+        # second batch: other sites (those of the first index are skipped), behaviour files only
+        gen(sys.argv[2], sys.argv[3], int(sys.argv[4]), seed=7, skip_index=sys.argv[5],
+            files=[f for f in FILES if f not in ("src/geo/astro.rs", "src/angle.rs", "src/lib.rs")])
     else:
         run(sys.argv[2], set(sys.argv[3:]) or None)
